@@ -490,13 +490,6 @@ end
 
 /-! ### (iii) the full mask has the flattened view of the document -/
 
-/-- every list item anywhere in the tree holds at least one scalar -/
-inductive Node.ItemsHaveScalars : Node → Prop
-  | leaf (v : Scalar) : Node.ItemsHaveScalars (.leaf v)
-  | list {xs : List Node} : (∀ x ∈ xs, 0 < Node.scalarCount x) → (∀ x ∈ xs, Node.ItemsHaveScalars x) →
-      Node.ItemsHaveScalars (.list xs)
-  | cont {kvs : List (String × Node)} : (∀ p ∈ kvs, Node.ItemsHaveScalars p.2) → Node.ItemsHaveScalars (.cont kvs)
-
 /-- the document-level hypothesis of `rebuild_perm` -/
 def ItemsHaveScalars (d : AMap Node) : Prop := (Node.cont d).ItemsHaveScalars
 
